@@ -8,6 +8,7 @@ pub mod fmt_table;
 pub mod fmtspec;
 pub mod mp;
 pub mod lit;
+pub mod pair;
 
 pub use big::Big;
 pub use layout::{IntK, INTS, L, NLAY};
